@@ -3,7 +3,8 @@
 Lean: Props/C08.lean (C08 : C08_statement; rem_nonneg, complete_trip_home_fits, step_decision,
 day_rem_nonneg, day_budget, budget_daylight, day_budget_workday, day_visits, crews_used,
 weather_visited, checkWeather_iff, weather_unworkable, one_report_per_request,
-step_budget_fractional, budget_daylight_fractional, out_reqOk, day_unit_free).
+step_budget_fractional, budget_daylight_fractional, out_reqOk, day_unit_free; table obligations
+crew_no_cross_case_state, pickle_roundtrip_order over Generated/CrewCost.lean).
 Tie: the REAL Method.survey_site on every integer tuple R<=24, S<=8, T<=4, P<=S x deployment type x
 weather outcome (exhaustive, base class and component-level subclass), multi-day continuation of one
 survey on the report object carried by the real SurveyPlanner, the REAL Method.deploy_crews /
@@ -22,7 +23,7 @@ from harness import core
 from harness.props import _crew_common as CC
 
 MANIFEST_ENTRY = {
-    "text": "Lean theorem C08 proves, for every method description, day budget, crew count and work plan (any number of requests with any survey/travel times, partial progress and per-site weather), by induction over the loop of deploy_crews: every crew's remaining minutes stay >= 0; the minutes charged to a crew over its visits (travel + survey) plus its trip home never exceed the budget (day_budget), which is 60*min(workday, daylight) when daylight is considered (budget_daylight, day_budget_workday; fractional-hour version over any ordered field: step_budget_fractional, budget_daylight_fractional); a completed or partial survey leaves the trip home (complete_trip_home_fits); no more crews are used than the method has (crews_used); a site is visited only if temperature, wind and precipitation are all inside the envelope (weather_visited, checkWeather_iff) and an unworkable site's report is unchanged and re-queued (weather_unworkable); every planned request gets exactly one report (one_report_per_request); the reports handed back unfinished are again admissible requests, so the day theorems iterate over all days (out_reqOk); the daylight cap is part of C08_statement; the loop is homogeneous in the unit of time (day_unit_free), so instances with fractional minutes are integer instances in a finer unit. The model is tied on every run to the real Method.survey_site (exhaustive on R<=24,S<=8,T<=4,P<=S x deployment type x weather outcome), to multi-day continuations, to the real Method/ComponentLevelMethod.deploy_crews for all four method classes, to the real daylight and weather lookup code, and the property's clauses are evaluated directly on the implementation outputs; whole simulations add the same clauses on wrapper traces.",
+    "text": "Lean theorem C08 proves, for every method description, day budget, crew count and work plan (any number of requests with any survey/travel times, partial progress and per-site weather), by induction over the loop of deploy_crews: every crew's remaining minutes stay >= 0; the minutes charged to a crew over its visits (travel + survey) plus its trip home never exceed the budget (day_budget), which is 60*min(workday, daylight) when daylight is considered (budget_daylight, day_budget_workday; fractional-hour version over any ordered field: step_budget_fractional, budget_daylight_fractional); a completed or partial survey leaves the trip home (complete_trip_home_fits); no more crews are used than the method has (crews_used); a site is visited only if temperature, wind and precipitation are all inside the envelope (weather_visited, checkWeather_iff) and an unworkable site's report is unchanged and re-queued (weather_unworkable); every planned request gets exactly one report (one_report_per_request); the reports handed back unfinished are again admissible requests, so the day theorems iterate over all days (out_reqOk); the daylight cap is part of C08_statement; the loop is homogeneous in the unit of time (day_unit_free), so instances with fractional minutes are integer instances in a finer unit. Table obligations regenerated from /repo on every run: no function of the modelled modules mutates a class-/module-level container or is cached (crew_no_cross_case_state), __reduce__/_reconstruct argument orders agree (pickle_roundtrip_order); same-process history (colliding names/ids/dates, both orders, fresh process), shared-input construction, boundary dates, real travel-time shapes and pickling round trips are exercised against the real code. The model is tied on every run to the real Method.survey_site (exhaustive on R<=24,S<=8,T<=4,P<=S x deployment type x weather outcome), to multi-day continuations, to the real Method/ComponentLevelMethod.deploy_crews for all four method classes, to the real daylight and weather lookup code, and the property's clauses are evaluated directly on the implementation outputs; whole simulations add the same clauses on wrapper traces.",
     "design_ref": "DESIGN.md 5.8, 4.2",
     "note": "trusted: Lean kernel + propext/Classical.choice/Quot.sound; the hand-written model (tied by exhaustive/sampled correspondence, not proof); harness adapters and stubs (StubSite, synthetic weather cube, stub ephem); minutes are integers in the theorems of the day loop; fractional minutes are covered by homogeneity (day_unit_free) + step-level theorems over ordered fields, and tied by the fractional-daylight stage with exact Fractions (float rounding of non-dyadic daylight hours is outside); sampled travel times are inputs; the interplay with the queue over several days (request really served again) belongs to C07",
     "technique": "Lean 4 invariant proof over the deploy_crews loop + exhaustive/differential correspondence with the real classes + direct oracle",
@@ -324,6 +325,128 @@ def _frac_json(case):
     return c
 
 
+def stage_history(ctx):
+    """LESSONS 1: consecutive days in one process with colliding keys (method name, site ids, crew ids,
+    date) and differing values, forward and reverse, and in a fresh process"""
+    from harness.adapters import crew as C
+    from harness.props import _crew_history as H
+
+    n_seq = ctx.pick(80, 800)
+    fresh_items, fresh_ref = [], []
+    for k in range(n_seq):
+        name = ctx.rng.choice(CC.METHOD_NAMES)
+        date = ctx.rng.choice(CC.BOUNDARY_DATES)
+        items = []
+        for _ in range(ctx.rng.randint(2, 5)):
+            c = list(CC.random_day(ctx.rng, ctx.rng.choice(["tiny", "small"])))
+            c[7] = [(i,) + tuple(q[1:]) for i, q in enumerate(c[7])]      # same site ids s0, s1, ...
+            c[9] = {"name": name, "date": date}
+            items.append(["day", CC.case_json(tuple(c))])
+        n, fwd = H.check_orders(ctx, "C08", items, "crew-day")
+        ctx.evaluations += n
+        if k < ctx.pick(12, 60):
+            fresh_items += items
+            fresh_ref += fwd
+        ctx.nontrivial.add(("history", len(items), name in ("kept", "NA", "Logs"), date[5:]))
+    ctx.evaluations += H.check_fresh(ctx, "C08", fresh_items, "crew-day", fresh_ref)
+    ctx.traces += n_seq
+
+
+def stage_shared_inputs(ctx):
+    """LESSONS 1: several real methods built from ONE properties dict (as the simulation manager does
+    for every program and simulation) and one shared list of sites; each runs a day; results must equal
+    the run on private inputs and the shared inputs must come out deep-equal"""
+    import copy
+    from harness.adapters import crew as C
+
+    for _ in range(ctx.pick(150, 2500)):
+        base = CC.random_day(ctx.rng, ctx.rng.choice(["tiny", "small"]))
+        (cls0, stationary, cost_type, unit_cost, budget, crews, cw, reqs, upfront, opts) = base
+        if stationary or crews == 0:
+            continue
+        reqs = [C.req_fields(q) for q in reqs]
+        travel_cfg = ctx.rng.choice([[5.0, 15.0, 30.0], 7, 12.5, [0.0]])
+        props = C.properties(workday=1, crews=crews, travel=travel_cfg, per_day=0, per_site=unit_cost, upfront=upfront)
+        before = copy.deepcopy(props)
+        sites = [C.StubSite("s%d" % q[0], q[1], q[6]) for q in reqs]
+        replies = []
+        classes = [ctx.rng.choice(CC.CLASSES) for _ in range(ctx.rng.randint(2, 3))]
+        inp = {"shared_inputs": {"classes": classes, "day": CC.case_json(base), "travel": travel_cfg}}
+        ok = True
+        for cls in classes:
+            def one(cls=cls):
+                m = C.make_method_from(cls, props, sites=(sites or None), consider_weather=cw)
+                m._max_work_hours = C.hours_for(budget)
+                C.TravelScript(m, [])
+                planners = []
+                for s_, q in zip(sites, reqs):
+                    pl = C.SurveyPlanner(s_)
+                    if q[2] or q[3] or q[4] or q[8]:
+                        pl._active_survey_report = C.fresh_report(s_.get_id(), q[2], q[3], q[4], today=q[8])
+                    planners.append(pl)
+                r = C.run_day(m, sites, planners, reqs, C.DATE0)
+                case = (cls, False, "site", unit_cost, budget, crews, cw, reqs, upfront)
+                return C.impl_day_reply(case, r), C.impl_day_reply(case, C.impl_day(case))
+            got = CC.guarded(ctx, "crew.shared-inputs", inp, one)
+            if got is None:
+                ok = False
+                break
+            replies.append(got)
+            ctx.evaluations += 1
+        if not ok:
+            continue
+        if any(a != b for (a, b) in replies):
+            ctx.violate("C08:history:shared-inputs:result-differs-from-private-inputs",
+                        "a method built from a shared properties dict / site list behaves differently from one built from private copies",
+                        dict(inp, replies=[list(x) for x in replies]))
+        if props != before:
+            diff = [k for k in before if props.get(k) != before[k]]
+            ctx.violate("C08:history:shared-inputs:properties-modified",
+                        "constructing / deploying a method modified the shared method-parameter dict", dict(inp, changed_keys=diff))
+        ctx.nontrivial.add(("shared", len(classes), isinstance(travel_cfg, list), cw))
+
+
+def stage_travel_shapes(ctx):
+    """LESSONS 3: the configured travel time as int, float and multi-valued list through the REAL
+    _get_travel_time (every other stage scripts the draw): an int minute count from the configured
+    values, the configuration untouched; the budget clauses hold with the drawn value"""
+    import copy
+    from harness.adapters import crew as C
+
+    shapes = [0, 7, 30, 2.5, 3.5, 7.49, 12.0, [30.0], [15.0, 45.0], [5.0, 10.5, 20.0, 60.0], [0.0, 0.0], [1.4, 1.6]]
+    for cls in ("method", "component"):
+        for tv in shapes:
+            inp = {"travel_shape": {"cls": cls, "configured": tv}}
+            got = CC.guarded(ctx, "crew.travel-shape", inp, lambda: C.impl_travel_samples(copy.deepcopy(tv), 60, cls))
+            if got is None:
+                continue
+            samples, after = got
+            allowed = {round(x) for x in (tv if isinstance(tv, list) else [tv])}
+            ctx.evaluations += 1
+            if any((not isinstance(x, int)) or x not in allowed for x in samples) or after != tv:
+                ctx.violate("C08:travel:sample-not-from-configuration",
+                            "the travel time drawn for a visit is not (the rounding of) a configured value, or the configuration changed",
+                            dict(inp, samples=sorted(set(map(str, samples))), after=after))
+            if isinstance(tv, list) and len(set(allowed)) > 1 and len(set(samples)) == 1:
+                ctx.count("travel:list-always-same-value")
+            ctx.nontrivial.add(("travel", cls, type(tv).__name__, len(allowed)))
+            # a step with the real draw: budget clauses with the travel time the step returned
+            m = C.make_method(cls, travel=copy.deepcopy(tv), consider_weather=False)
+            for R in (0, 20, 61, 200):
+                site = C.StubSite("s0", 40)
+                crew = C.CrewDailyReport(0, R)
+                rep = C.fresh_report("s0")
+                res = m.survey_site(crew=crew, survey_report=rep, site_to_survey=site, weather=None, curr_date=C.DATE0)
+                T = res[1]
+                today = rep.time_surveyed
+                reached = rep.survey_complete or today > 0
+                ctx.evaluations += 1
+                if crew.day_time_remaining < 0 or (reached and crew.day_time_remaining < T) or T + today + (T if reached else 0) > R \
+                        or (reached and T not in allowed):
+                    ctx.violate("C08:step:minutes-exceed-remaining", "budget clauses fail with the really sampled travel time",
+                                dict(inp, R=R, travel=T, today=today, rem=crew.day_time_remaining))
+
+
 def stage_budget(ctx):
     from harness.adapters import crew as C
 
@@ -341,22 +464,33 @@ def stage_budget(ctx):
             if got != 60 * (min(w, d) if cd else w):
                 ctx.violate("C08:budget:not-min-workday-daylight",
                             "crews start the day with minutes != 60*min(workday, daylight)", {"budget": [cd, w, d], "got": got})
-    # fractional daylight on the quarter-hour grid through the real DaylightCalculatorAve
-    start = dt.date(2022, 1, 1)
+    # fractional daylight on the quarter-hour grid through the real DaylightCalculatorAve, over periods
+    # chosen on purpose: a full leap year, periods that straddle New Year / the leap day, periods that do
+    # not start on 1 January, 1- and 2-day periods; half of the calculators go through a pickling round trip
+    periods = [(dt.date(2024, 1, 1), ctx.pick(366, 366)), (dt.date(2023, 12, 30), 4), (dt.date(2024, 12, 31), 1),
+               (dt.date(2024, 2, 28), 2), (dt.date(2021, 11, 15), ctx.pick(60, 420)), (dt.date(2020, 12, 31), 2)]
     hours = {}
-    for k in range(ctx.pick(60, 366)):
-        hours[start + dt.timedelta(days=k)] = ctx.rng.randrange(0, 97) / 4.0
-    dl = C.real_daylight(lambda d: hours[d], start, start + dt.timedelta(days=len(hours) - 1))
-    for day, h in hours.items():
-        w = ctx.rng.choice([0, 4, 8, 8, 10, 12, 24])
-        got = C.impl_budget(True, w, None, daylight_obj=dl, day=day)
-        ctx.evaluations += 1
-        ctx.count("budget:" + ("daylight-caps" if h < w else "workday-caps"))
-        ctx.nontrivial.add(("budget", h < w, h == w, w == 0))
-        if got != 60 * min(w, h) or dl.get_daylight(day) != h:
-            ctx.violate("C08:budget:not-min-workday-daylight",
-                        "crews start the day with minutes != 60*min(workday, daylight) (fractional daylight)",
-                        {"budget": [True, w, h], "got": got})
+    for pi, (start, nd) in enumerate(periods):
+        hrs = {start + dt.timedelta(days=k): ctx.rng.randrange(0, 97) / 4.0 for k in range(nd)}
+        dl = C.real_daylight(lambda d: hrs[d], start, start + dt.timedelta(days=nd - 1))
+        if pi % 2 == 1:
+            dl = C.pickle_roundtrip(dl)
+        if set(dl.daylight_hours) != set(hrs):
+            ctx.violate("C08:budget:daylight-calendar", "the daylight table does not cover exactly the days of the period",
+                        {"daylight_period": [str(start), nd], "missing": sorted(str(d) for d in set(hrs) - set(dl.daylight_hours))[:5],
+                         "extra": sorted(str(d) for d in set(dl.daylight_hours) - set(hrs))[:5]})
+            continue
+        for day, h in hrs.items():
+            w = ctx.rng.choice([0, 4, 8, 8, 10, 12, 24])
+            got = C.impl_budget(True, w, None, daylight_obj=dl, day=day)
+            ctx.evaluations += 1
+            ctx.count("budget:" + ("daylight-caps" if h < w else "workday-caps"))
+            ctx.nontrivial.add(("budget", h < w, h == w, w == 0, day.timetuple().tm_yday in (1, 365, 366), (day.month, day.day) == (2, 29)))
+            if got != 60 * min(w, h) or dl.get_daylight(day) != h:
+                ctx.violate("C08:budget:not-min-workday-daylight",
+                            "crews start the day with minutes != 60*min(workday, daylight) (fractional daylight)",
+                            {"budget": [True, w, h], "got": got, "day": str(day)})
+        hours.update(hrs)
     ctx.traces += len(cases) + len(hours)
 
 
@@ -416,8 +550,10 @@ def stage_weather(ctx):
         C.place_sites(sites, weather)
         days = list(bnd) + (sample if cube == 0 or not ctx.quick else sample[:15])
         for cls in ("method", "component"):
+            # what a pool worker receives is the unpickled copy of the lookup (WeatherLookup.__reduce__)
+            wobj = weather if cls == "method" else C.pickle_roundtrip(weather)
             for day in (days if cls == "method" else days[:: ctx.pick(3, 2)] + bnd):
-                res, wp = C.impl_weather_day(cls, sites, weather, day)
+                res, wp = C.impl_weather_day(cls, sites, wobj, day)
                 queued, done = C.requeue_classes(wp, day)
                 # --- independent reading of the cube: index = (day of year - 1) * 24 + hour ---------
                 hour_index = (day.timetuple().tm_yday - 1) * 24 + WEATHER_HOUR
@@ -506,11 +642,17 @@ def run(ctx):
                 "and quarter-hour daylight through the real daylight calculator; weather: real lookup cubes with unsorted "
                 "axes whose days are pairwise distinguishable, a site near every cell + random sites, year boundaries and 29 Feb "
                 "of 2020/2021/2023/2024 always, every day-of-year incl. 366 of the leap years (sampled in quick). non-trivial = distinct (stage, class, branch/outcome shape) keys")
+    from harness.props.c10 import regenerate_tables
+
+    regenerate_tables(ctx)
     core.lean_stage(ctx, MODULE, FILE, drivers=["drv_crew"])
     stage_steps(ctx)
     stage_multiday(ctx)
     stage_days(ctx)
     stage_campaigns(ctx)
+    stage_history(ctx)
+    stage_shared_inputs(ctx)
+    stage_travel_shapes(ctx)
     stage_fractional(ctx)
     stage_budget(ctx)
     stage_weather(ctx)
@@ -583,6 +725,10 @@ def replay(ctx, data):
         print("impl budget:", got, "expected", 60 * (min(w, d) if cd else w))
         if got != 60 * (min(w, d) if cd else w):
             ctx.violate("C08:budget:not-min-workday-daylight", "budget", inp)
+    elif "history" in inp:
+        from harness.props import _crew_history as H
+
+        H.replay(ctx, "C08", inp)
     elif "weather" in inp:
         replay_weather(ctx, inp["weather"])
     elif "wholerun" in inp:
